@@ -59,7 +59,10 @@
 EXTENDS Integers, Sequences, TLC, Json
 
 CONSTANTS
-    Configs,     \* sequence of chain configurations [fork, kinds, l1, opfee]:
+    Configs,     \* sequence of chain configurations [fork, kinds, l1, opfee, reward]:
+                 \*   reward = FALSE: the handler was built with beneficiary rewards disabled (property C22): the
+                 \*            beneficiary and the three fee vaults receive nothing; the sender pays exactly what
+                 \*            it pays with rewards enabled (the fees are simply not credited to anybody)
                  \*   fork  \in ForkNames; kinds = transaction kinds offered in this configuration;
                  \*   l1    = [basefee, overhead, sn, sd, blobfee, bn, empty]   (scalar sn/sd, blob scalar bn/sd)
                  \*   opfee = [n, d, c]                                         (scalar n/d, constant c)
@@ -140,7 +143,7 @@ Proj == [bal |-> balance, nonce |-> senderNonce, res |-> lastRes, used |-> lastU
          refunded |-> lastRefunded, l1 |-> lastL1]
 
 \* what the harness needs to set the real chain up the same way
-HarnessCfg == [fork |-> Cfg.fork, l1 |-> Cfg.l1, opfee |-> Cfg.opfee, initbal |-> InitBal,
+HarnessCfg == [fork |-> Cfg.fork, l1 |-> Cfg.l1, opfee |-> Cfg.opfee, reward |-> Cfg.reward, initbal |-> InitBal,
                basefee |-> BaseFee, gaslimit |-> GasLimit, envs |-> Envelopes]
 
 Emit(op, post) ==
@@ -185,12 +188,13 @@ Regular(o) ==
                  moved   == IF Succeeds(o.exec) THEN o.value ELSE 0
                  upfront == GasLimit * eff + cost + OperatorFee(GasLimit)
                  refund  == (GasLimit - g) * eff + (OperatorFee(GasLimit) - OperatorFee(g))
+                 paid    == IF Cfg.reward THEN 1 ELSE 0              \* rewards disabled: nobody is credited
              IN Step(o, [balance EXCEPT !.s  = @ - upfront - moved + refund,
                                         !.r  = @ + moved,
-                                        !.cb = @ + g * (eff - BaseFee),
-                                        !.bv = @ + g * BaseFee,
-                                        !.lv = @ + cost,
-                                        !.ov = @ + OperatorFee(g)],
+                                        !.cb = @ + paid * g * (eff - BaseFee),
+                                        !.bv = @ + paid * g * BaseFee,
+                                        !.lv = @ + paid * cost,
+                                        !.ov = @ + paid * OperatorFee(g)],
                      senderNonce + 1, mintedTotal, IF Succeeds(o.exec) THEN "success" ELSE "failed",
                      g, o.refunded, cost)
 
@@ -221,7 +225,11 @@ View == <<chain, balance, senderNonce, LastGhost>>
 NonNegative == \A k \in DOMAIN balance : balance[k] >= 0
 
 \* money is created by deposits' mints and by nothing else; nothing is ever destroyed
-SupplyIsInitialPlusMints == Total(balance) = InitBal + mintedTotal
+\* (with rewards disabled the fees leave the sender and reach nobody: the total only shrinks)
+SupplyIsInitialPlusMints == IF Cfg.reward THEN Total(balance) = InitBal + mintedTotal
+                            ELSE Total(balance) <= InitBal + mintedTotal
+\* C22 on Optimism: without rewards neither the beneficiary nor a fee vault ever receives anything
+NoRewardNoCredit == Cfg.reward \/ (balance.cb = 0 /\ balance.bv = 0 /\ balance.lv = 0 /\ balance.ov = 0)
 
 NoOperatorFeeBeforeIsthmus == From("ISTHMUS") \/ balance.ov = 0
 
@@ -237,14 +245,18 @@ RegularConservation ==
             dbv   == balance'.bv - balance.bv
             dlv   == balance'.lv - balance.lv
             dov   == balance'.ov - balance.ov
-        IN /\ debit = toR + dcb + dbv + dlv + dov
+        IN /\ Cfg.reward => debit = toR + dcb + dbv + dlv + dov
+           /\ ~Cfg.reward => (debit >= toR /\ dcb = 0 /\ dbv = 0 /\ dlv = 0 /\ dov = 0)
            /\ toR \in {0, LastOp.value} /\ dcb >= 0 /\ dbv >= 0 /\ dlv >= 0 /\ dov >= 0
            /\ mintedTotal' = mintedTotal
            \* never more than what the up-front check covered
            /\ debit <= GasLimit * LastOp.price + LastOp.value + lastL1' + OperatorFee(GasLimit)
            \* a processed transaction pays the L1 fee it was quoted, whatever the execution did
            /\ lastRes' # "rejected" =>
-                 dlv = lastL1' /\ dbv = lastUsed' * BaseFee /\ senderNonce' = senderNonce + 1]_vars
+                 /\ senderNonce' = senderNonce + 1
+                 /\ Cfg.reward => (dlv = lastL1' /\ dbv = lastUsed' * BaseFee)
+                 \* the sender's debit does not depend on whether anybody is credited
+                 /\ debit = toR + lastUsed' * EffPrice(LastOp) + lastL1' + OperatorFee(lastUsed')]_vars
 
 \* deposit: exactly `mint` is created, the nonce moves, no fee is paid; on failure only these persist
 DepositMintsExactly ==
